@@ -51,6 +51,20 @@ Theorem C05_resolve : forall e i c M m p, resolve e i c M m = Some p ->
 Proof. exact resolve_spec. Qed.
 Print Assumptions C05_resolve.
 
+(* readable consequences of Valid: deprecation is transitive also through arrays; a union has no padding and at
+   least two variants *)
+Theorem C05_deprecation_transitive : forall e d sec t n,
+  Valid e d -> (sec = d_first d \/ In sec (d_more d)) -> In (SField t n) sec ->
+  ref_deprecated e (d_id d) (elem_of t) = true -> has_dir DDeprecated (d_first d) = true.
+Proof. exact valid_deprecation_transitive. Qed.
+Print Assumptions C05_deprecation_transitive.
+
+Theorem C05_union_shape : forall e i first depr k sec,
+  SectionRules e i first depr k sec -> has_dir DUnion sec = true ->
+  (forall w, ~ In (SPad w) sec) /\ (2 <= length (filter is_fieldb sec))%nat.
+Proof. exact valid_union_shape. Qed.
+Print Assumptions C05_union_shape.
+
 (* boundaries of the type parameters: width 0/1/64/65, signed 1/2/64/65 and never truncated, float 16/32/64 only,
    void 0/1/64/65, capacity 0/1 (and 1/2 for the exclusive form), 2^64-1 / 2^64 for the length prefix *)
 Theorem C05_boundaries_types : forall e i,
